@@ -31,6 +31,16 @@ def run(ctx, chk):
     Q = QueueAnalysis(ctx)
     check_constructors(ctx, chk, L)
     rule_readd_every_element(ctx, chk, "L4")
+    # an in-place restore / rollback (a discovered mutator) must keep the aggregates derived from the orders it queues:
+    # the conservation ledger of C01 applied to every discovered mutator, filed under L4
+    from ..report import Relabel
+    from .c01 import check_mutator
+    from .. import lvlrules as LR
+    rl = Relabel(chk, "L4", "ledger:")
+    for name in L.mutators():
+        if "::" in name:
+            check_mutator(ctx, rl, L, name)
+    LR.rule_unanalysed_writers(ctx, chk, L, "L4")
     from .c17 import rule_serde_attrs, rule_order_id_json
     rule_serde_attrs(ctx, chk, "V6", "V6")
     rule_order_id_json(ctx, chk, "V6")
